@@ -153,6 +153,15 @@ func generate(repo string, rel string, spans []span, ops map[string]bool) ([]*mu
 		fn := inSpan(n)
 		switch x := n.(type) {
 		case *ast.IfStmt:
+			// `if err != nil { …; return … }` → the failure is ignored and execution goes on
+			if fn != "" && ops["goon"] && x.Else == nil && len(x.Body.List) > 0 {
+				if _, isRet := x.Body.List[len(x.Body.List)-1].(*ast.ReturnStmt); isRet {
+					cs := string(src[off(x.Cond.Pos()):off(x.Cond.End())])
+					if strings.Contains(cs, "err") && strings.Contains(cs, "!= nil") {
+						replace("goon", x.Cond, off(x.Body.Lbrace)+1, off(x.Body.Rbrace), "\n", fn, "(body removed: failure ignored, execution continues)")
+					}
+				}
+			}
 			if fn != "" && ops["negate"] {
 				c := string(src[off(x.Cond.Pos()):off(x.Cond.End())])
 				replace("negate", x.Cond, off(x.Cond.Pos()), off(x.Cond.End()), "!("+c+")", fn, "!("+strings.Join(strings.Fields(c), " ")+")")
